@@ -25,6 +25,7 @@ func init() {
 			"C20.R6 TABLE siblings: page attributes the reader inherits from /Pages nodes are in the writer's table for such nodes",
 			"C20.R7 MPT: a content stream is replaced by a cached one only on a comparison of stored bytes",
 			"C20.R8 like-with-like: resource names from a content stream are decoded (DecodeName) before they are compared with dictionary keys",
+			"C20.R10 PAIR: Context.Dest raised for one dictionary entry is lowered before the next entry or a successful return",
 			"C20.R9 TABLE: references built in optimize.go carry a generation read from the xref table, never a constant",
 			"C20.R4 shape: the content scanner that decides which resources a page uses tracks backslash parity when it skips string literals",
 			"C20.R3 shape: resource inheritance consolidation lets the nearer definition override (unconditional store per key)",
@@ -51,6 +52,8 @@ func runC20(c *Ctx) {
 	checkContentNamesDecoded(c)
 	r.MinInst["C20.R9"] = 1
 	checkOptimizeRefsCarryGeneration(c)
+	r.MinInst["C20.R10"] = 2
+	checkDestFlagCleared(c)
 	checkContentDedupComparesStoredBytes(c)
 	// ---- R1
 	n := 0
@@ -767,5 +770,112 @@ func checkOptimizeRefsCarryGeneration(c *Ctx) {
 	}
 	if n == 0 || good == 0 {
 		r.Bad("C20.R9", "pkg/pdfcpu/optimize.go", "anchor", "", "UNRESOLVED-ANCHOR: no NewIndirectRef call with a generation read from the xref table in optimize.go")
+	}
+}
+
+// ---------------- C20.R10 (round 4 seed C20-H): the "skip the destination's page reference" flag is per entry ----------------
+
+// checkDestFlagCleared: while pages are written, Context.Dest tells the array writer not to follow element 0 of a
+// destination array (a page reference). It is raised for one dictionary entry (/Dest or /D) and must be lowered
+// before the next entry is looked at or the function returns: a flag that stays raised makes the writer skip
+// element 0 of whatever array comes next — the first content stream of the next page's /Contents array is then
+// never written. PAIR rule: from every store of true into the field, every path to the next iteration of the
+// enclosing loop or to a return that is not an error return passes a store of false into the same field.
+func checkDestFlagCleared(c *Ctx) {
+	p, r := c.P, c.R
+	n := 0
+	for _, fn := range p.Funcs {
+		if !isSubject(fn) || fn.Pkg == nil || fn.Pkg.Pkg.Path() != modPath+"/pkg/pdfcpu" {
+			continue
+		}
+		storeKind := func(i ssa.Instruction) string {
+			st, ok := i.(*ssa.Store)
+			if !ok {
+				return ""
+			}
+			fa, ok := st.Addr.(*ssa.FieldAddr)
+			if !ok {
+				return ""
+			}
+			f := structField(fa.X.Type(), fa.Field)
+			if f == nil || f.Name() != "Dest" {
+				return ""
+			}
+			if b, ok := f.Type().Underlying().(*types.Basic); !ok || b.Kind() != types.Bool {
+				return ""
+			}
+			cst, ok := st.Val.(*ssa.Const)
+			if !ok || cst.Value == nil {
+				return "other"
+			}
+			if constant.BoolVal(cst.Value) {
+				return "true"
+			}
+			return "false"
+		}
+		loops := naturalLoops(fn)
+		k := 0
+		for _, b := range fn.Blocks {
+			for idx, in := range b.Instrs {
+				if storeKind(in) != "true" {
+					continue
+				}
+				k++
+				n++
+				construct := fmt.Sprintf("Dest raised#%d", k)
+				// innermost loop containing b
+				var loop *natLoop
+				for _, l := range loops {
+					if l.blocks[b] && (loop == nil || len(l.blocks) < len(loop.blocks)) {
+						loop = l
+					}
+				}
+				clearedIn := func(x *ssa.BasicBlock, from int) bool {
+					for j := from; j < len(x.Instrs); j++ {
+						if storeKind(x.Instrs[j]) == "false" {
+							return true
+						}
+					}
+					return false
+				}
+				leak := ""
+				if !clearedIn(b, idx+1) {
+					seen := map[*ssa.BasicBlock]bool{}
+					work := append([]*ssa.BasicBlock{}, b.Succs...)
+					for len(work) > 0 && leak == "" {
+						x := work[len(work)-1]
+						work = work[:len(work)-1]
+						if seen[x] {
+							continue
+						}
+						seen[x] = true
+						if loop != nil && x == loop.header {
+							leak = "the next iteration of the loop over the entries"
+							break
+						}
+						if clearedIn(x, 0) {
+							continue
+						}
+						if len(x.Instrs) > 0 {
+							if ret, ok := x.Instrs[len(x.Instrs)-1].(*ssa.Return); ok {
+								if kind, ok := returnErrKind(ret); !ok || kind != errNonNil {
+									leak = "a successful return"
+								}
+								continue
+							}
+						}
+						work = append(work, x.Succs...)
+					}
+				}
+				if leak == "" {
+					r.OK("C20.R10", FuncID(fn), construct, p.Pos(in.Pos()), "lowered again on every path to the next entry and to every successful return", true)
+				} else {
+					r.Bad("C20.R10", FuncID(fn), construct, p.Pos(in.Pos()), "the flag that makes the array writer skip a destination's page reference can stay raised until "+leak+": element 0 of the next array that is written (a later page's /Contents array) is skipped and its stream never reaches the output")
+				}
+			}
+		}
+	}
+	if n == 0 {
+		r.Bad("C20.R10", "pkg/pdfcpu", "anchor", "", "UNRESOLVED-ANCHOR: no store of true into a bool field Dest")
 	}
 }
